@@ -894,6 +894,50 @@ impl VRec {
     }
 }
 
+impl VRec {
+    /// end by the rule noodles documents for variant_end (and C09's model states), computed here
+    /// from the record text: before 4.5 as the specification; from 4.5 on
+    /// POS + max(|REF|, largest non-missing SVLEN value of ANY allele, largest FORMAT LEN) - 1
+    /// (a negative value is an error).  It differs from spec_end exactly in the known vcf45-* classes.
+    fn doc_end(&self, ver: u32) -> Option<u64> {
+        if ver < 45 {
+            return self.spec_end(ver);
+        }
+        if self.pos == 0 || self.reflen == 0 {
+            return None;
+        }
+        let mut m = self.reflen as i64;
+        for l in self.svlen.iter().flatten().flatten().chain(self.len.iter().flatten().flatten()) {
+            if *l < 0 {
+                return None;
+            }
+            m = m.max(*l);
+        }
+        Some(self.pos + m as u64 - 1)
+    }
+
+    /// input class of a record whose span comes from several values (for tags)
+    fn span_class(&self) -> &'static str {
+        let sv: Vec<i64> = self.svlen.iter().flatten().flatten().copied().collect();
+        let has_len = self.len.iter().flatten().flatten().next().is_some();
+        let max_len = self.len.iter().flatten().flatten().copied().max();
+        let max_sv = sv.iter().map(|x| x.abs()).max();
+        if !sv.is_empty() && has_len && max_len > max_sv {
+            "-with-svlen-and-larger-format-len"
+        } else if sv.len() >= 2 && sv.iter().map(|x| x.abs()).max() != sv.last().map(|x| x.abs()) {
+            "-with-multi-valued-svlen-largest-not-last"
+        } else if sv.len() >= 2 {
+            "-with-multi-valued-svlen"
+        } else if !sv.is_empty() && has_len {
+            "-with-svlen-and-format-len"
+        } else if !sv.is_empty() && self.end.is_some() {
+            "-with-svlen-and-end"
+        } else {
+            ""
+        }
+    }
+}
+
 fn fmt_optlist(l: &Option<Vec<Option<i64>>>) -> String {
     match l {
         None => "-".into(),
@@ -1100,6 +1144,9 @@ fn gen_vcfq(rng: &mut Rng, w: &mut CaseWriter) {
     let nctg = rng.range(1, 4) as usize;
     let nsamp = rng.below(3) as usize;
     let svd = ver == 45 && rng.chance(1, 6); // files with INFO SVLEN spans (known findings)
+    // files with records whose span comes from SEVERAL values: multi-valued SVLEN (largest value
+    // first / in the middle / last), alleles of different types, SVLEN with FORMAT LEN, END with SVLEN
+    let msv = rng.chance(1, 3);
     let exotic = rng.chance(1, 8);
     let fat_every = if rng.chance(1, 2) { rng.range(2, 6) } else { 0 };
     let n = match rng.below(5) {
@@ -1167,6 +1214,57 @@ fn gen_vcfq(rng: &mut Rng, w: &mut CaseWriter) {
             3 => r.alts = vec![b'S', b'S'],
             4 if rng.chance(1, 4) => r.alts = vec![],
             _ => {}
+        }
+        if msv && rng.chance(1, 3) {
+            let n = rng.range(2, 4) as usize;
+            let p = match rng.below(3) {
+                0 => 0,
+                1 => n - 1,
+                _ => n / 2,
+            };
+            let l = span as i64;
+            let mut alts = Vec::new();
+            let mut sv = Vec::new();
+            for k in 0..n {
+                if k != p && rng.chance(1, 6) {
+                    alts.push(b'S');
+                    sv.push(None);
+                    continue;
+                }
+                let a = if k != p && rng.chance(1, 6) { b'I' } else { *rng.pick(b"DUVC") };
+                let x = if k == p { l } else { rng.range(1, span) as i64 };
+                sv.push(Some(if ver == 43 && a == b'D' { -x } else { x }));
+                alts.push(a);
+            }
+            r.len = None;
+            if ver < 45 {
+                // controls: INFO END governs, whatever SVLEN says
+                r.end = Some((s + span - 1) as i64);
+            } else {
+                // END is not looked at from 4.5 on (here: a position before the real end)
+                r.end = if rng.chance(1, 4) { Some((s + rng.below(span)) as i64) } else { None };
+                if nsamp > 0 && rng.chance(1, 3) {
+                    // SVLEN together with FORMAT LEN: below the SVLEN span or beyond it
+                    alts.push(b'O');
+                    sv.push(None);
+                    let beyond = rng.chance(1, 2);
+                    r.len = Some(
+                        (0..nsamp)
+                            .map(|_| {
+                                if rng.chance(1, 4) {
+                                    None
+                                } else if beyond {
+                                    Some(((span + 1 + rng.below(3000)).min(maxp - s + 1)) as i64)
+                                } else {
+                                    Some(rng.range(0, span) as i64)
+                                }
+                            })
+                            .collect(),
+                    );
+                }
+            }
+            r.alts = alts;
+            r.svlen = Some(sv);
         }
         if exotic && rng.chance(1, 10) {
             match rng.below(4) {
@@ -1349,17 +1447,28 @@ fn run_vcfq(c: &Case) -> Obs {
                             .map(|(i, _)| i)
                             .collect();
                         if in_range && want != got {
-                            let miss = want.iter().find(|i| !got.contains(i));
-                            let extra = got.iter().find(|i| !want.contains(i));
-                            let sv = |i: &usize| ver == 45 && recs[*i].svlen.as_ref().map(|v| v.iter().any(|x| x.is_some())).unwrap_or(false);
-                            let tag = match (miss, extra) {
-                                (Some(i), _) if sv(i) => TAG_DEL45.to_string(),
-                                (None, Some(i)) if sv(i) => TAG_INS45.to_string(),
-                                (Some(_), _) => format!("vcfq-{label}-missing-record"),
-                                (None, Some(_)) => format!("vcfq-{label}-extra-record"),
-                                _ => format!("vcfq-{label}-order-or-duplicate"),
+                            // the same scan with the span by the rule noodles documents (independent
+                            // of the implementation: from the record text)
+                            let want2: Vec<usize> = recs
+                                .iter()
+                                .enumerate()
+                                .filter(|(_, r)| r.chrom == *k && r.doc_end(ver).map(|re| r.pos <= hi && lo <= re).unwrap_or(false))
+                                .map(|(i, _)| i)
+                                .collect();
+                            let tag = if got == want2 {
+                                // exactly the difference between the two rules: the known 4.5 classes
+                                // (a <DEL>-like allele ends one base early / an <INS> SVLEN extends the span)
+                                if want.iter().any(|i| !got.contains(i)) { TAG_DEL45.to_string() } else { TAG_INS45.to_string() }
+                            } else {
+                                let miss = want2.iter().find(|i| !got.contains(i));
+                                let extra = got.iter().find(|i| !want2.contains(i));
+                                match (miss, extra) {
+                                    (Some(i), _) => format!("vcfq-{label}-missing-record{}", recs[*i].span_class()),
+                                    (None, Some(i)) => format!("vcfq-{label}-extra-record{}", recs.get(*i).map(|r| r.span_class()).unwrap_or("")),
+                                    _ => format!("vcfq-{label}-order-or-duplicate"),
+                                }
                             };
-                            j.fail(&tag, format!("region c{k}:{s:?}-{e:?} scan={want:?} query={got:?}"));
+                            j.fail(&tag, format!("region c{k}:{s:?}-{e:?} scan={want:?} by-documented-rule={want2:?} query={got:?}"));
                         }
                         let on_ref = recs.iter().filter(|r| r.chrom == *k).count();
                         if !want.is_empty() && want.len() < on_ref {
